@@ -56,7 +56,7 @@ fn dangerous(bit: &ScriptBit, stack: &[Vec<u8>]) -> bool {
     match bit {
         ScriptBit::OpCode(o) => match *o as u8 {
             126 => top(0).map(|a| a.len()).unwrap_or(0) + top(1).map(|a| a.len()).unwrap_or(0) > SIZE_CAP,
-            128 => top(0).map(|n| n.len() <= 4 && num_of(n) > BigInt::from(SIZE_CAP)).unwrap_or(false),
+            128 => top(0).map(|n| num_of(n) > BigInt::from(SIZE_CAP)).unwrap_or(false),
             149 => top(0).map(|a| a.len()).unwrap_or(0) + top(1).map(|a| a.len()).unwrap_or(0) > (1 << 14),
             150 | 151 => top(0).map(|a| a.len()).unwrap_or(0).max(top(1).map(|a| a.len()).unwrap_or(0)) > (1 << 14),
             _ => false,
@@ -170,9 +170,21 @@ pub fn check_interpreter(make: &dyn Fn() -> Result<Interpreter, String>, o: &mut
         }
         o.label("continued-from-a-clone");
     }
-    // stepping past the end keeps returning None
+    // stepping past the end keeps returning None; after an error the iteration ends too (a `for` loop over the interpreter
+    // terminates) and the stacks stay those of the last returned state
     if !errored {
         ensure!(lib_call("next after end", || a.next())?.is_none(), "next_after_end", "Some", "None");
+    } else {
+        let mut ended = false;
+        for _ in 0..3 {
+            if lib_call("next after an error", || a.next())?.is_none() {
+                ended = true;
+                break;
+            }
+        }
+        ensure!(ended, "iteration_ends_after_an_error", "next() keeps returning Some after the failing step", "None: the failed script runs no further");
+        let live = stacks(&a);
+        ensure!(live == last, "stacks_preserved_after_error", "stacks changed by calls after the failing step", "the last returned state");
     }
     Ok(())
 }
@@ -245,7 +257,7 @@ impl Property for C16 {
     const ID: &'static str = "C16";
 
     fn rule() -> String {
-        "Opcode soup over every opcode value of the library's table (reserved, disabled, template pseudo-opcodes; via from_script_bits also bare structural and PUSHDATA opcodes) with adversarial operands (negative, 2^31 +/- 1, > 4 bytes, empty, negative zero), signature- and key-shaped pushes, initial stacks of depth 0..6, nested conditionals (random trees; straight nests to depth 150 / 300); random byte strings that parse; a Coinbase element; interpreters built from transaction inputs with/without locking script and value running CHECKSIG/CHECKMULTISIG on garbage signatures and off-curve keys, half of them behind or inside conditionals holding code separators; interpreters handed their element list directly (from_transaction_and_script_bits) with more elements than the input's locking script, and inputs whose unlocking script is one opaque Coinbase element that re-reads as several. Oracle: no panic (catch_unwind) and no process death (supervised child + journal); steps <= elements of the flattened tree + 1; stepping to the end and run() give the same Ok/Err and the same final stacks; after an Err the stacks equal the last returned state; a clone taken half-way finishes with the same outcome and stacks, and a copy that went through the interpreter's serde form half-way still steps to an end without panicking. Non-trivial = >= 3 executed steps or an error path reached; distinct by hash of the serialised case.".into()
+        "Opcode soup over every opcode value of the library's table (reserved, disabled, template pseudo-opcodes; via from_script_bits also bare structural and PUSHDATA opcodes) with adversarial operands (negative, 2^31 +/- 1, > 4 bytes, empty, negative zero), signature- and key-shaped pushes, initial stacks of depth 0..6, nested conditionals (random trees; straight nests to depth 150 / 300); random byte strings that parse; a Coinbase element; interpreters built from transaction inputs with/without locking script and value running CHECKSIG/CHECKMULTISIG on garbage signatures and off-curve keys, half of them behind or inside conditionals holding code separators; interpreters handed their element list directly (from_transaction_and_script_bits) with more elements than the input's locking script, and inputs whose unlocking script is one opaque Coinbase element that re-reads as several. Oracle: no panic (catch_unwind) and no process death (supervised child + journal); steps <= elements of the flattened tree + 1; stepping to the end and run() give the same Ok/Err and the same final stacks; after an Err the stacks equal the last returned state and further next() calls end the iteration (None) without changing them; a clone taken half-way finishes with the same outcome and stacks, and a copy that went through the interpreter's serde form half-way still steps to an end without panicking. Non-trivial = >= 3 executed steps or an error path reached; distinct by hash of the serialised case.".into()
     }
 
     fn assumptions() -> Vec<String> {
